@@ -25,6 +25,13 @@ func (e RawEnc) Unmarshal(buf []byte, msg drpc.Message) error {
 	return nil
 }
 
+// AppendEnc is RawEnc plus the optional MarshalAppend method.
+type AppendEnc struct{ RawEnc }
+
+func (AppendEnc) MarshalAppend(buf []byte, msg drpc.Message) ([]byte, error) {
+	return append(buf, *(msg.(*[]byte))...), nil
+}
+
 // FailEnc rejects every message it is asked to decode (C10: undecodable request).
 type FailEnc struct {
 	Msg string
